@@ -309,6 +309,8 @@ type concProbe struct {
 	log      *concLog
 	gate     *concGate // non-nil: every Emit parks until released (honouring ctx)
 	parkAt   int       // >=0: only this Emit call parks, and only ctx.Done() wakes it (D5 recipe); -1: none
+	slowAt   int       // this Emit call sleeps slowMs before it returns (a source that is quiet for a while)
+	slowMs   int
 	slowret  int       // the parked call takes this many ms to return after its ctx was cancelled (slow to cancel)
 	errAt    int       // Emit call index that fails; -1: none
 	yield    int       // slow source: Gosched this many times per Emit
@@ -413,6 +415,9 @@ func (p *concProbe) Emit(ctx context.Context) (int, error) {
 			return 0, ctx.Err()
 		}
 	}
+	if p.slowMs > 0 && p.slowAt == k {
+		time.Sleep(time.Duration(p.slowMs) * time.Millisecond)
+	}
 	if p.errAt == k {
 		p.log.add(fmt.Sprintf("r%dx", g))
 		return 0, errConcUser
@@ -456,6 +461,10 @@ type concCase struct {
 	child    bool   // run in a re-exec'd child process (the case may crash the process)
 	ofail    string // "" | "err" | "panic": a lifecycle element placed AFTER the async stage whose Open fails
 	rep      int    // materialise the SAME stream value this many times (>= 1)
+	slowat   int    // source Emit call index that takes `slowms` milliseconds before it returns (-1 = none): a quiet source
+	slowms   int
+	ptr      bool   // concurrent map to a POINTER type whose mapper returns nil for elements i with i%3 == 1
+	ign      bool   // gated callbacks do not look at their ctx: they return (nil) only when the environment releases them
 	nowait   bool   // histories: start the next materialisation right after the previous terminal returned
 	cerr     bool   // pipe: the consumer returns an error (instead of nil) after its reads
 	lcx      int    // extra (no-op) lifecycle elements added on top of the source provider (WithAdditionalLifecycle)
@@ -469,7 +478,7 @@ func parseConcCase(text string) (*concCase, error) {
 	if len(f) == 0 {
 		return nil, fmt.Errorf("empty case")
 	}
-	cc := &concCase{op: f[0], c: 1, size: 2, sync: true, mf: -1, mp: -1, se: -1, park: -1, cancel: -1, reads: -1, trials: 1, rep: 1}
+	cc := &concCase{op: f[0], c: 1, size: 2, sync: true, mf: -1, mp: -1, se: -1, park: -1, cancel: -1, reads: -1, trials: 1, rep: 1, slowat: -1}
 	for _, kv := range f[1:] {
 		k, v, ok := strings.Cut(kv, "=")
 		if !ok {
@@ -519,6 +528,14 @@ func parseConcCase(text string) (*concCase, error) {
 			cc.child = v == "1"
 		case "ofail":
 			cc.ofail = v
+		case "slowat":
+			cc.slowat = atoi()
+		case "slowms":
+			cc.slowms = atoi()
+		case "ptr":
+			cc.ptr = v == "1"
+		case "ign":
+			cc.ign = v == "1"
 		case "nowait":
 			cc.nowait = v == "1"
 		case "cerr":
@@ -676,7 +693,11 @@ func (r *concRun) concConsumer(ctx context.Context, v int) error {
 	r.mu.Lock()
 	r.deliv = append(r.deliv, v)
 	r.mu.Unlock()
-	out := r.mgate.enter(ctx, v, r.cc.mg)
+	gctx := ctx
+	if r.cc.ign {
+		gctx = context.Background() // a callback that finishes its work regardless of the cancellation
+	}
+	out := r.mgate.enter(gctx, v, r.cc.mg)
 	defer r.mgate.leave()
 	if out < 0 {
 		return ctx.Err()
@@ -742,6 +763,26 @@ func (r *concRun) baseStream() stream.Stream[int] {
 		src = src.WithAdditionalLifecycle(stream.NewLifecycle(func(ctx context.Context) error { return nil }, func() {}))
 	}
 	cmap := func(s stream.Stream[int]) stream.Stream[int] {
+		if cc.ptr {
+			// the mapped type is a pointer and nil is a legitimate result (an optional lookup): every result, nil
+			// included, must be delivered; nil shows as 999 in the observation
+			p := stream.MapWithErrAndCtx(s, func(ctx context.Context, v int) (*int, error) {
+				res, err := r.mapper(ctx, v)
+				if err != nil {
+					return nil, err
+				}
+				if v%3 == 1 {
+					return nil, nil
+				}
+				return &res, nil
+			}, stream.WithConcurrentMapOption(cc.c))
+			return stream.Map(p, func(x *int) int {
+				if x == nil {
+					return concMapOffset - 1
+				}
+				return *x
+			})
+		}
 		return stream.MapWithErrAndCtx(s, r.mapper, stream.WithConcurrentMapOption(cc.c))
 	}
 	var b stream.Stream[int]
@@ -1063,7 +1104,7 @@ func concRunOnce(cc *concCase) concObs {
 	}
 	base := concScan(nil) // goroutines left over by earlier cases (only after a reported leak) are ignored
 	r := &concRun{cc: cc, log: &concLog{}, mgate: newConcGate(), cgate: newConcGate(), ignore: base.ids}
-	r.src = &concProbe{n: cc.n, log: r.log, parkAt: cc.park, errAt: cc.se, yield: cc.yield, slowret: cc.slowret, slowRelease: make(chan struct{}, 1)}
+	r.src = &concProbe{n: cc.n, log: r.log, parkAt: cc.park, errAt: cc.se, yield: cc.yield, slowret: cc.slowret, slowRelease: make(chan struct{}, 1), slowAt: cc.slowat, slowMs: cc.slowms}
 	if cc.sg {
 		r.src.gate = newConcGate()
 	}
